@@ -238,6 +238,8 @@ class World:
         self.unknown_paths = set()
         self.lock_notes = set()
         self.data = {}
+        fp = scen.get("free_at_poll") if isinstance(scen, dict) else None
+        self.free_at_poll = bool(fp) if fp is not None else os.environ.get("JMC_FREE_AT_POLL", "0") == "1"
 
     # ------------------------------------------------------------------ paths
     def rel(self, path):
@@ -310,7 +312,9 @@ class World:
             if self.fault_plan is not None:
                 for a in self.fault_plan(self, v, op):
                     opts.append((v, a, 1))
-        if not opts and sleepers:
+        if sleepers and (not opts or (self.free_at_poll and all(o[0].pending.kind == "poll" for o in opts))):
+            # nobody else can move, or everybody else is only waiting for running jobs: the sleeper's
+            # timer may fire first (a retry delay of seconds against jobs that run for hours)
             for v in sleepers:
                 opts.append((v, "", 0))
         if not opts and blocked:
@@ -327,7 +331,10 @@ class World:
             and last_enabled
             and v is not self.last
             and not (v.free_start and v.pending.kind == "start")
+            and not (self.free_at_poll and self.last.pending is not None and self.last.pending.kind == "poll")
         ):
+            # (a process parked at a poll with running jobs is WAITING for them: leaving it is not a
+            # preemption - how long jobs run relative to everybody else's progress is the environment's choice)
             p = 1
         return (p, 1 if is_fault else 0)
 
